@@ -26,6 +26,13 @@ vars == <<u, last, depth>>
 ObsM(x) == [f \in AccessorNames \cup {"val"} |->
               IF f = "val" THEN [ok |-> <<x.scheme, x.netloc, x.path, x.query, x.fragment>>] ELSE AccM(f, x)]
 
+\* the outcome of an attempted operation: a new value, or -- when Level I says the operation raises -- the SAME value with the
+\* attempt recorded, so that rejected operations are replayed on the real library too (which must not return a URL that
+\* breaks a contract where the model sees an exception)
+Outcome(r, act, a) ==
+  \/ (IsOK(r) /\ u' = r.ok /\ last' = [act |-> act, args |-> a, prev |-> u])
+  \/ ("exc" \in DOMAIN r /\ u' = u /\ last' = [act |-> act, args |-> a, prev |-> u, rejected |-> r.exc])
+
 Init == /\ depth = 0
         /\ \/ (/\ \E s \in SeedStrings : LET r == EncodeUrl("c", s) IN IsOK(r) /\ u = r.ok
                /\ last = [act |-> "seed"])
@@ -35,22 +42,22 @@ Init == /\ depth = 0
 
 TextStep(act) == \E v \in ArgTexts :
    \/ (act \in {"with_user", "with_password", "with_fragment"} /\ LET a == [op |-> act, v |-> <<v>>] IN
-         LET r == Apply("c", act, a, u, u) IN IsOK(r) /\ u' = r.ok /\ last' = [act |-> act, args |-> a, prev |-> u])
+         LET r == Apply("c", act, a, u, u) IN Outcome(r, act, a))
    \/ (act \in {"with_name", "with_path"} /\ LET a == [op |-> act, v |-> v, encoded |-> FALSE, keep_query |-> FALSE, keep_fragment |-> TRUE] IN
-         LET r == Apply("c", act, a, u, u) IN IsOK(r) /\ u' = r.ok /\ last' = [act |-> act, args |-> a, prev |-> u])
+         LET r == Apply("c", act, a, u, u) IN Outcome(r, act, a))
    \/ (act = "truediv" /\ LET a == [op |-> act, v |-> v] IN
-         LET r == Apply("c", act, a, u, u) IN IsOK(r) /\ u' = r.ok /\ last' = [act |-> act, args |-> a, prev |-> u])
+         LET r == Apply("c", act, a, u, u) IN Outcome(r, act, a))
    \/ (act = "with_query" /\ LET a == [op |-> act, q |-> [form |-> "str", s |-> v, pairs |-> <<>>]] IN
-         LET r == Apply("c", act, a, u, u) IN IsOK(r) /\ u' = r.ok /\ last' = [act |-> act, args |-> a, prev |-> u])
+         LET r == Apply("c", act, a, u, u) IN Outcome(r, act, a))
    \/ (act \in {"extend_query", "update_query"} /\ LET a == [op |-> act, q |-> [form |-> "str", s |-> v, pairs |-> <<>>]] IN
-         LET r == Apply("c", act, a, u, u) IN IsOK(r) /\ u' = r.ok /\ last' = [act |-> act, args |-> a, prev |-> u])
+         LET r == Apply("c", act, a, u, u) IN Outcome(r, act, a))
    \/ (act = "update_query_pairs" /\ LET a == [op |-> "update_query", q |-> [form |-> "pairs", s |-> <<>>, pairs |-> << <<v, [t |-> "str", s |-> v]>>, <<<<120>>, [t |-> "str", s |-> v]>> >>]] IN
-         LET r == Apply("c", "update_query", a, u, u) IN IsOK(r) /\ u' = r.ok /\ last' = [act |-> "update_query", args |-> a, prev |-> u])
+         LET r == Apply("c", "update_query", a, u, u) IN Outcome(r, "update_query", a))
    \/ (act = "without_query_params" /\ LET a == [op |-> act, keys |-> <<v, <<120>>>>] IN
-         LET r == Apply("c", act, a, u, u) IN IsOK(r) /\ u' = r.ok /\ last' = [act |-> act, args |-> a, prev |-> u])
+         LET r == Apply("c", act, a, u, u) IN Outcome(r, act, a))
    \/ (act = "with_query_pairs" /\ LET a == [op |-> "with_query", q |-> [form |-> "pairs", s |-> <<>>, pairs |-> << <<v, [t |-> "str", s |-> v]>> >>]] IN
-         LET r == Apply("c", "with_query", a, u, u) IN IsOK(r) /\ u' = r.ok /\ last' = [act |-> "with_query", args |-> a, prev |-> u])
-Step(act, a) == LET r == Apply("c", act, a, u, u) IN IsOK(r) /\ u' = r.ok /\ last' = [act |-> act, args |-> a, prev |-> u]
+         LET r == Apply("c", "with_query", a, u, u) IN Outcome(r, "with_query", a))
+Step(act, a) == LET r == Apply("c", act, a, u, u) IN Outcome(r, act, a)
 JoinStep == \E s \in RefStrings : LET rr == EncodeUrl("c", s) IN
    IsOK(rr) /\ u' = Join(u, rr.ok) /\ last' = [act |-> "join", args |-> [op |-> "join", ref |-> [op |-> "ctor", s |-> s, encoded |-> FALSE]], prev |-> u]
 Next ==
@@ -96,6 +103,6 @@ Inv_C13 == C13_PartsRecompose(O) /\ C13_NameIsLast(O) /\ C13_SuffixIsTail(O)
 Inv_C16 == C16_LowerAscii(O) /\ (C16_Ipv6Canonical(O) \/ EmptyHostRegion(u))
 Inv_C17 == C17_PortFallback(O) /\ C17_Range(O) /\ (EmptyHostRegion(u) \/ C17_StrPort(O))
 \* ------------------------------------------------------------------ action property: frame conditions (C11)
-Frame == last.act \in {"seed", "build"} \/ ~C11_Applies(last.act) \/ EmptyHostRegion(last.prev)
+Frame == last.act \in {"seed", "build"} \/ "rejected" \in DOMAIN last \/ ~C11_Applies(last.act) \/ EmptyHostRegion(last.prev)
          \/ C11_Frame(last.act, last.args, ObsM(last.prev), O)
 =============================================================================
